@@ -65,7 +65,7 @@ type tierCfg struct {
 }
 
 var tiers = map[string]tierCfg{
-	"quick": {name: "quick", corrupt: 300, churn: 1200, large: 18, growReplace: 0, growMax: 600, serialSeconds: 20, serialProcs: 16, selfRuns: 200, pairsM: 64, firstPer: 3, preemptPairs: 96, preemptCap: 300,
+	"quick": {name: "quick", corrupt: 300, churn: 1200, large: 18, growReplace: 0, growMax: 600, serialSeconds: 20, serialProcs: 16, selfRuns: 200, pairsM: 64, firstPer: 3, preemptPairs: 80, preemptCap: 300,
 		burstSeconds: 12, burstMin: 1200, burstProcs: 6, hardCap: 15 * time.Minute},
 	"thorough": {name: "thorough", corrupt: 1500, churn: 6000, large: 32, growReplace: 1, growMax: 3000, serialSeconds: 720, serialProcs: 16, selfRuns: 5000, pairsM: 420, firstPer: 12, preemptPairs: 1000, preemptCap: 600,
 		burstSeconds: 240, burstMin: 30000, burstProcs: 6, hardCap: 150 * time.Minute},
